@@ -11,6 +11,9 @@ from concurrent.futures import ProcessPoolExecutor
 
 # (function regex, description regex, why the edit does not change behaviour)
 EQUIVALENT_EDITS = [
+    (r"MplField\.lightness$", r"`elif self\.field\.nvdim > 3:`: comparator Gt->GtE",
+     "reached only after `nvdim == 2` and `nvdim == 3` returned; nvdim is an integer >= 1 (Field.__init__ refuses anything "
+     "else, confirmed from source by equiv.confirmed_invariants), so `>= 3` and `> 3` select the same fields there"),
 ]
 
 
